@@ -923,6 +923,50 @@ func (ce *cenv) evalCall(e *CExpr) cvar {
 		argn(2)
 		v := ce.eval(e.Args[1])
 		return cvar{v: mkSelect(ce.st.H("ghost:"+e.Name+":"+e.Args[0].String(), arraySort(sortInt, sortInt)), x.toTerm(v.v, v.t)), t: mathInt}
+	case "cfbenc", "cfbdec", "bytesmatch":
+		return ce.evalCrypto(e)
+	case "each":
+		// each(i, lo, hi, body): finite conjunction over lo <= i < hi (bounds must be concrete:
+		// instantiated units)
+		argn(4)
+		if e.Args[0].Op != "id" && e.Args[0].Name == "" {
+			ce.fail("each: first argument must be a variable name")
+		}
+		lo, hi := ce.evalInt(e.Args[1]), ce.evalInt(e.Args[2])
+		if !isInt(lo) || !isInt(hi) {
+			ce.fail("each needs concrete bounds (instantiated unit)")
+		}
+		var cs []*Term
+		for k := lo.Val.Int64(); k < hi.Val.Int64(); k++ {
+			vars := map[string]cvar{}
+			for n, v := range ce.vars {
+				vars[n] = v
+			}
+			vars[e.Args[0].Name] = cvar{v: mkInt(k), t: mathInt}
+			n := *ce
+			n.vars = vars
+			cs = append(cs, n.evalBool(e.Args[3]))
+		}
+		return cvar{v: mkAnd(cs...), t: types.Typ[types.Bool]}
+	case "xor8":
+		argn(2)
+		return cvar{v: bxor8(ce.evalInt(e.Args[0]), ce.evalInt(e.Args[1])), t: mathInt}
+	case "blocksize":
+		argn(1)
+		b := ce.eval(e.Args[0])
+		return cvar{v: mkApp("blk.size", sortInt, x.toTerm(b.v, b.t)), t: mathInt}
+	case "salsaks":
+		// salsaks(key, k, nonce): byte k of the Salsa20 keystream for (key, 8-byte nonce)
+		argn(3)
+		kv := ce.eval(e.Args[0])
+		key := x.toTerm(kv.v, kv.t)
+		nv := ce.eval(e.Args[2])
+		nonce := x.toTerm(nv.v, nv.t)
+		args := []*Term{key, ce.evalInt(e.Args[1])}
+		for k := 0; k < 8; k++ {
+			args = append(args, x.byteAt(ce.st, nonce, k))
+		}
+		return cvar{v: mkApp("salsa.KS8", sortInt, args...), t: mathInt}
 	case "bytesobj":
 		// bytesobj(o): contents of the byte array object with reference o
 		argn(1)
@@ -1153,4 +1197,49 @@ func (x *Exec) clauseEnv(fr *Frame, st *State, extra map[string]cvar) *cenv {
 		ce.bound[k] = true
 	}
 	return ce
+}
+
+// evalCrypto: spec functions over byte arrays with a concrete length (instantiated units).
+//   cfbenc(block, dst, src, bs) / cfbdec(...): dst[0..len(src)) in the current state equals textbook
+//   CFB of src's bytes in the old state (IV = the package's initialVector in the old state).
+func (ce *cenv) evalCrypto(e *CExpr) cvar {
+	x := ce.x
+	if len(e.Args) != 4 {
+		ce.fail("%s(block, dst, src, bs)", e.Name)
+	}
+	blk := ce.eval(e.Args[0])
+	self := x.toTerm(blk.v, blk.t)
+	dv, sv := ce.eval(e.Args[1]), ce.eval(e.Args[2])
+	d, s := x.toTerm(dv.v, dv.t), x.toTerm(sv.v, sv.t)
+	bsT := ce.evalInt(e.Args[3])
+	n := sliceLen(s)
+	if !isInt(n) || !isInt(bsT) {
+		// symbolic length: the relation is an uninterpreted predicate of the block object, the
+		// block size, the two slice headers, the byte heap before and after and the IV: enough
+		// to carry a callee's postcondition through a wrapper that does nothing else.
+		bt := types.Universe.Lookup("byte").Type()
+		hn, so := x.env.te.elemHeap(bt)
+		ivs := ce.old.H("G:"+x.env.spkg.Pkg.Name()+".initialVector", sortSlice)
+		return cvar{v: mkApp("rel."+e.Name, sortBool, self, bsT, d, s, ce.old.H(hn, so), ce.st.H(hn, so), ivs), t: types.Typ[types.Bool]}
+	}
+	cnt, bs := int(n.Val.Int64()), int(bsT.Val.Int64())
+	in := make([]*Term, cnt)
+	for k := range in {
+		in[k] = x.byteAt(ce.old, s, k)
+	}
+	g := x.env.spkg.Members["initialVector"]
+	if g == nil {
+		ce.fail("no initialVector")
+	}
+	ivs := ce.old.H("G:"+x.env.spkg.Pkg.Name()+".initialVector", sortSlice)
+	iv := make([]*Term, bs)
+	for k := range iv {
+		iv[k] = x.byteAt(ce.old, ivs, k)
+	}
+	spec := cfbSpec(self, in, iv, bs, e.Name == "cfbenc")
+	var cs []*Term
+	for k := 0; k < cnt; k++ {
+		cs = append(cs, mkEq(x.byteAt(ce.st, d, k), spec[k]))
+	}
+	return cvar{v: mkAnd(cs...), t: types.Typ[types.Bool]}
 }
